@@ -330,7 +330,9 @@ def run(ctx):
     ctx.check_proofs(["prop/P_C16.v"])
     # translation tie: fast_intersection regenerated from the current source; link theorem: for every COO matrix, label array
     # and pair of distances the translated source rescales each stored value exactly as the model's attenuate does
-    link.check(ctx, "umap_sup", {"fast_intersection": "src_fast_intersection_eq"},
+    # fast_metric_intersection (the metric-valued twin): translated for metric_args=() with `metric` an opaque function; link theorem over
+    # every Num and every metric function: each stored value is multiplied by exp(-(scale * metric(space[i], space[j])))
+    link.check(ctx, "umap_sup", {"fast_intersection": "src_fast_intersection_eq", "fast_metric_intersection": "src_fast_metric_intersection_eq"},
                {"reset_local_connectivity": "SciPy / scikit-learn calls (normalize, transpose, multiply): outside the py2coq subset",
                 "discrete_metric_simplicial_set_intersection": "SciPy COO object manipulation: outside the py2coq subset"})
     t0 = _phase(ctx, "proofs", t0)
